@@ -255,3 +255,59 @@ def run_peg_correspondence(rep, cases, name="recogniser-IR"):
     rep.extra.setdefault("correspondence", {})[name] = {"requests": len(cases), "disagreements": len(bad), **stats}
     rep.obligation(f"corr:{name} (first-pass outcome, end, tokens fetched, peek/getnext/reset counts equal on {len(cases)} inputs)", not bad, str(bad[:2])[:600] if bad else "")
     return bad
+
+
+# ---------------------------------------------------------------- tokenizer
+def tok_request(src: str) -> str:
+    na = sorted({c for c in src if ord(c) > 127})
+    wc = ",".join(str(ord(c)) for c in na if c.isalnum()) or "-"
+    sc = ",".join(str(ord(c)) for c in na if c.isspace()) or "-"
+    return f"tok {wc} {sc} {enc_str(src)}"
+
+
+def impl_tokens_encoded(src: str) -> str:
+    from peg_parser.tokenize import TokenError, generate_tokens
+
+    out = []
+    err = None
+    try:
+        for t in generate_tokens(src):
+            out.append(f"{t.type.name}|{enc_str(t.string)}|{t.start[0]}:{t.start[1]}|{t.end[0]}:{t.end[1]}|{enc_str(t.line)}")
+            if len(out) > 50 * len(src) + 100:
+                return "hang"
+    except TokenError as e:
+        msg = e.args[0]
+        if msg.startswith("Bad token"):
+            msg = "Bad token"
+        err = f"TokenError|{msg}|{e.args[1][0]}:{e.args[1][1]}"
+    except IndentationError as e:
+        err = f"IndentationError|{e.lineno}|{e.offset}"
+    except RecursionError:
+        return "recursion"
+    return (f"ok {';'.join(out)}" if err is None else f"err {err} {';'.join(out)}").rstrip() if False else (f"ok {';'.join(out)}" if err is None else f"err {err} {';'.join(out)}")
+
+
+def tok_cases(srcs):
+    return [(tok_request(s), impl_tokens_encoded(s), s) for s in srcs if "\n" not in tok_request(s)]
+
+
+def run_tok_correspondence(rep, cases, name="tokenizer"):
+    if not DRIVER.exists():
+        rep.obligation(f"corr:{name}", False, "driver not built")
+        return []
+    answers = Driver().ask_many([c[0] for c in cases])
+    bad = []
+    kinds = {"ok": 0, "err": 0}
+    for (req, exp, src), got in zip(cases, answers):
+        g = got.rstrip()
+        e = exp.rstrip()
+        if g != e:
+            # first differing token for the report
+            gt, et = g.split(";"), e.split(";")
+            i = next((k for k, (a, b) in enumerate(zip(gt, et)) if a != b), min(len(gt), len(et)))
+            bad.append({"source": src, "first_difference_at_token": i, "model": gt[i][:200] if i < len(gt) else None, "implementation": et[i][:200] if i < len(et) else None})
+        else:
+            kinds[e.split(" ")[0]] = kinds.get(e.split(" ")[0], 0) + 1
+    rep.extra.setdefault("correspondence", {})[name] = {"requests": len(cases), "disagreements": len(bad), **kinds}
+    rep.obligation(f"corr:{name} (token 5-tuples and raised error equal on {len(cases)} inputs)", not bad, str(bad[:2])[:600] if bad else "")
+    return bad
